@@ -2,6 +2,7 @@ package main
 
 import (
 	"fmt"
+	"reflect"
 	"strings"
 
 	stackage "github.com/JesseCoretta/go-stackage"
@@ -120,6 +121,12 @@ func (n node) buildRaw(path string, o *buildOpts) any {
 	case "PI": // the address of an interface variable that holds a Stack: a leaf (nothing says one may look through it)
 		var v any = n.buildStack(path, o)
 		return &v
+	case "RVS": // a reflect.Value that describes a Stack: a plain struct value, a leaf
+		return reflect.ValueOf(n.buildStack(path, o))
+	case "RVC": // ... that describes a Condition over a Stack
+		return reflect.ValueOf(stackage.Cond("kw"+path, stackage.Le, n.buildStack(path, o)))
+	case "CRVS": // a Condition whose expression is a reflect.Value describing a Stack
+		return stackage.Cond("kw"+path, stackage.Lt, reflect.ValueOf(n.buildStack(path, o)))
 	case "CPI":
 		var v any = n.buildStack(path, o)
 		return stackage.Cond("kw"+path, stackage.Eq, &v)
